@@ -4,7 +4,9 @@
  *   new term|tickit|tickitb [buf=N] [...]   build (tickit = tickit_new_for_term, tickitb = tickit_build with its own,
  *                                   buffered, terminal); buf=N: the terminal gets an output buffer of N bytes
  *                                   (tickitb without buf=: the toplevel's default); the other tokens describe the
- *                                   VT's initial state (driver only)
+ *                                   VT's mode state at hand-over
+ *                                   (blink=0|1 shape=N vis=0|1; for the driver only - the history feeds the replies
+ *                                   such a terminal gives, e.g. `reply mode 25 2` for vis=0)
  *   ctl <name|#num> <value>         tickit_term_setctl_int
  *   setstr <name|#num> <hex>        tickit_term_setctl_str
  *   setpen <pen> | chpen <pen>      pen = comma list of fg= bg= b= u= i= rv= s= af= bl= sp=   ("-" = empty);
